@@ -29,7 +29,8 @@ property quoted below, while the code still compiles and the project's existing 
 
 You work ONLY in your own scratch git worktree: {wt}  (a detached worktree of the repository at its current HEAD;
 create nothing elsewhere except your output directory {out}; never touch /repo or /verif, and do not read anything
-under /verif). Every shell call needs:  export GOPROXY=off GOSUMDB=off GOTOOLCHAIN=local   (no network; do not set
+under /verif). NEVER use `git stash` (the stash is shared by all worktrees of the repository and other people work in
+sibling worktrees): to set a change aside use `git diff > file` and `git apply -R file`. Every shell call needs:  export GOPROXY=off GOSUMDB=off GOTOOLCHAIN=local   (no network; do not set
 GOFLAGS=-mod=mod inside the worktree).
 
 THE PROPERTY ({pid}: {prop['title']})
